@@ -214,6 +214,10 @@ func (f *FrameHeader) readFrom(br *bufio.Reader) (int64, error) {
 		n, err = io.ReadFull(br, f.payload[:n])
 		if err != nil {
 			ReleaseFrame(f.fr)
+			// The body is back in its pool. Leaving the header pointing at it
+			// makes the caller's error path release it a second time.
+			f.fr = nil
+
 			return 0, err
 		}
 
